@@ -16,6 +16,10 @@ type c20N struct {
 	P *c20N
 	S []*c20N
 	M map[string]*c20N
+	// leaves that can be shared between nodes: a pointer to a scalar, a slice and a map of plain values
+	W *int
+	T []string
+	C map[string]int
 }
 
 type c20B struct {
@@ -35,9 +39,9 @@ func init() {
 	fw.Register(&fw.Check{
 		ID:    "C20",
 		Level: "exploration",
-		Rule: "case = random pointer graph of 2-40 nodes over struct{V int; P *N; S []*N; M map[string]*N} (family A) or over struct values holding pointers and interfaces (family B), with random sharing, " +
+		Rule: "case = random pointer graph of 2-40 nodes over struct{V int; P *N; S []*N; M map[string]*N; W *int; T []string; C map[string]int} (family A; the leaves W, T, C are drawn from small pools so that they are shared between nodes) or over struct values holding pointers and interfaces (family B), with random sharing, " +
 			"self loops and back edges; marshaled with RecursionSupport=true to CBE or CTE (termination observed by the supervisor: CPU budget / stack overflow) and unmarshaled into a typed nil-pointer template. " +
-			"Oracle GraphIso: a simultaneous walk of original and result builds a pointer bijection; any place where identity structure (shared / cyclic / distinct) or a scalar differs is the located difference. " +
+			"Oracle GraphIso: a simultaneous walk of original and result builds a bijection between pointers, non-empty slices (backing array + length) and non-empty maps; any place where identity structure (shared / cyclic / distinct) or a scalar differs is the located difference. " +
 			"Non-trivial = graph has at least one shared node or cycle; distinct = distinct graph descriptors.",
 		Assumptions: []string{"only the part of the graph reachable from the root is compared", "map keys are distinct short strings"},
 		Cases:       func(tier string) int { return 6 + tierN(tier, 3000, 100000) },
@@ -130,6 +134,12 @@ func (w *c20Iso) walk(a, b reflect.Value, path string) string {
 		if a.Len() != b.Len() {
 			return fmt.Sprintf("%s: slice length %d vs %d", path, a.Len(), b.Len())
 		}
+		if a.Len() > 0 {
+			// a slice is a node too: the same (backing array, length) held in two places must be one slice again
+			if r, seen := w.identity(a.Pointer()^uintptr(a.Len())<<48^1<<62, b.Pointer()^uintptr(b.Len())<<48^1<<62, path, "slice"); r != "" || seen {
+				return r
+			}
+		}
 		for i := 0; i < a.Len(); i++ {
 			if r := w.walk(a.Index(i), b.Index(i), fmt.Sprintf("%s[%d]", path, i)); r != "" {
 				return r
@@ -138,6 +148,11 @@ func (w *c20Iso) walk(a, b reflect.Value, path string) string {
 	case reflect.Map:
 		if a.Len() != b.Len() {
 			return fmt.Sprintf("%s: map size %d vs %d", path, a.Len(), b.Len())
+		}
+		if !a.IsNil() && !b.IsNil() && a.Len() > 0 {
+			if r, seen := w.identity(a.Pointer()^1<<63, b.Pointer()^1<<63, path, "map"); r != "" || seen {
+				return r
+			}
 		}
 		keys := a.MapKeys()
 		sort.Slice(keys, func(i, j int) bool { return keys[i].String() < keys[j].String() })
@@ -168,6 +183,23 @@ func (w *c20Iso) walk(a, b reflect.Value, path string) string {
 		}
 	}
 	return ""
+}
+
+// identity records that original object ka corresponds to result object kb (keys are addresses tagged by kind).
+// seen = the pair was met before (its contents were compared then).
+func (w *c20Iso) identity(ka, kb uintptr, path, what string) (diff string, seen bool) {
+	if mb, ok := w.ab[ka]; ok {
+		if mb != kb {
+			return path + ": " + what + " was shared in the original but is a different object in the result", true
+		}
+		return "", true
+	}
+	if _, ok := w.ba[kb]; ok {
+		return path + ": " + what + " is shared in the result but was a distinct object in the original", true
+	}
+	w.ab[ka], w.ba[kb] = kb, ka
+	w.pairs++
+	return "", false
 }
 
 var c20SliceFieldRe = regexp.MustCompile(`\.Kids\[\d+\]\.(Back|Sib)$`)
@@ -239,6 +271,44 @@ func c20BuildA(c *fw.Ctx, n int) (root *c20N, desc string, cyc, shared bool) {
 				key := fmt.Sprintf("k%d", k)
 				nd.M[key] = nodes[j]
 				desc += fmt.Sprintf("%d.M[%s]>%d ", i, key, j)
+			}
+		}
+	}
+	// shared leaves: each pool member may be held by several nodes (sharing without any cycle)
+	if c.Rng.Intn(2) == 0 {
+		var ws []*int
+		var ts [][]string
+		var cs []map[string]int
+		for k := 0; k < 3; k++ {
+			w := 100 + k
+			ws = append(ws, &w)
+			ts = append(ts, []string{"x", fmt.Sprint("y", k), "z"}[:1+c.Rng.Intn(3)])
+			cs = append(cs, map[string]int{"a": k, "b": k + 1})
+		}
+		used := map[string]int{}
+		for i, nd := range nodes {
+			if c.Rng.Intn(2) == 0 {
+				k := c.Rng.Intn(3)
+				nd.W = ws[k]
+				used[fmt.Sprint("W", k)]++
+				desc += fmt.Sprintf("%d.W>w%d ", i, k)
+			}
+			if c.Rng.Intn(3) == 0 {
+				k := c.Rng.Intn(3)
+				nd.T = ts[k]
+				used[fmt.Sprint("T", k)]++
+				desc += fmt.Sprintf("%d.T>t%d ", i, k)
+			}
+			if c.Rng.Intn(3) == 0 {
+				k := c.Rng.Intn(3)
+				nd.C = cs[k]
+				used[fmt.Sprint("C", k)]++
+				desc += fmt.Sprintf("%d.C>c%d ", i, k)
+			}
+		}
+		for _, u := range used {
+			if u > 1 {
+				shared = true
 			}
 		}
 	}
